@@ -268,7 +268,9 @@ theorem render_from_any_reachable_session {s : Session} (h : Reach s) (env : Env
     `None` (any of the default-site reads), a missing close tag, indexing an empty parameter list, option or fence -/
 theorem not_residual_examples :
     ¬ Allowed (.noneType "group") ∧ ¬ Allowed (.noneType "closeTag") ∧ ¬ Allowed (.indexError "params[0]") ∧
-    ¬ Allowed (.indexError "opt[0]") ∧ ¬ Allowed (.indexError "match[1][0]") ∧ ¬ Allowed (.reError "x") := by
+    ¬ Allowed (.indexError "opt[0]") ∧ ¬ Allowed (.indexError "match[1][0]") ∧ ¬ Allowed (.reError "x") ∧
+    ¬ Allowed (.noneType "readTo match[1]") ∧ ¬ Allowed (.indexError "match[0][0] line") ∧
+    ¬ Allowed (.indexError "match[0][0] list") ∧ ¬ Allowed (.indexError "match[0][0] block") := by
   decide
 
 /-- the outcomes that are allowed and are not Python exceptions -/
